@@ -72,5 +72,12 @@ LEGS = [
     # / scan:merge-lost-or-duplicated
     {"name": "client-merge", "harness": "client", "model": "client", "n_quick": 2000, "n_thorough": 60000,
      "corpus": "corpus/client", "args": ["-mode", "merge"], "timeout": 600, "timeout_thorough": 3000},
+    # comparison gets across shards (harness and model owned by C20; theorem c11_multi_shard_get_follows_slash_order): the
+    # real doMultiShardGet / selectResponse / compareGetResponse with per-shard answers (primary and secondary-index flavour)
+    # from the comparer-stressing keys -- same-depth candidates whose non-final segment is a prefix of the other's followed
+    # by a byte below '/' --, floor / lower / ceiling / higher, 2..5 shards, every arrival order for <= 4 shards; compared with
+    # the extracted select_response, verdicts mget:not-the-extremum / mget:answered-before-all-shards-replied
+    {"name": "client-mget", "harness": "client", "model": "client", "n_quick": 1500, "n_thorough": 60000,
+     "corpus": "corpus/client", "args": ["-mode", "mget"], "timeout": 600, "timeout_thorough": 3000},
 ]
 REGISTERED = True
